@@ -27,7 +27,15 @@ var c11RegisteredSets = [][]string{
 
 // nearMiss derives a requested redirect_uri from a registered one.
 func nearMiss(t *Tape, reg string) string {
-	switch t.Intn(26) {
+	switch t.Intn(30) {
+	case 26: // another scheme on the same (loopback) host
+		return strings.Replace(reg, "http://", "evilapp://", 1)
+	case 27:
+		return strings.Replace(strings.Replace(reg, "http://", "https://", 1), "127.0.0.1/", "127.0.0.1:8443/", 1)
+	case 28:
+		return strings.Replace(reg, "http://", "com.example.other://", 1)
+	case 29:
+		return strings.Replace(reg, "https://", "ftp://", 1)
 	case 0, 1, 2, 3:
 		return reg
 	case 4:
@@ -282,7 +290,7 @@ func init() {
 			case 10:
 				steps = append(steps, Step{Op: "refresh", C: -1, G: t.Intn(12), V: "latest", P: map[string]string{"scope": pick(scopes, 2), "audience": t.Pick(auds)}})
 			case 11:
-				steps = append(steps, Step{Op: "client_change", C: c, V: t.Pick([]string{"drop_scope:photos", "drop_scope:users.*", "drop_aud:https://api.sim/v1", "drop_scope:mail.read"})})
+				steps = append(steps, Step{Op: "client_change", C: c, V: t.Pick([]string{"drop_scope:photos", "drop_scope:users.*", "drop_aud:https://api.sim/v1", "drop_scope:mail.read"}), P: map[string]string{"how": t.Pick([]string{"inplace", "replace"})}})
 			case 12:
 				steps = append(steps, Step{Op: "introspect", C: t.Intn(2), G: t.Intn(30), P: map[string]string{"scope": pick(scopes, 1)}})
 			}
@@ -463,6 +471,19 @@ func init() {
 			case 0:
 				s := st("authz", t.Intn(nc), 0, "rt", t.Pick(flows), "nonce", fmt.Sprintf("nonce-%d-abcdefghijkl", len(steps)), "sub", t.Pick([]string{"user-A", "user-A", "user-B"}))
 				s.P["scope"] = pickScopes(t, 85, 60)
+				if t.Chance(14) {
+					// the resource owner grants only part of the request - possibly everything but openid
+					var keep []string
+					for _, x := range splitNonEmpty(s.P["scope"]) {
+						if x != "openid" || t.Chance(30) {
+							keep = append(keep, x)
+						}
+					}
+					if len(keep) == 0 {
+						keep = []string{"none-of-the-requested"}
+					}
+					s.P["grant"] = strings.Join(keep, " ")
+				}
 				if t.Chance(12) {
 					s.P["nonce"] = ""
 				}
